@@ -30,10 +30,29 @@
     content the multi-process model returns/raises what `activationMatrix` does;
   * `mp_cells_written_once` — the run never stores outside the buffer, every
     flat cell is written exactly once, the reshaped buffer holds the
-    single-process columns; `mp_initial_content_irrelevant`;
+    single-process columns;
   * `activation_mp_spec` — hence the cue-wise sums of `activation_matrix_spec`;
-  * `mp_dropped_tail_differs` — a schedule that drops the last
-    `len % n_jobs` events (seeded change C12_b) does NOT give the matrix.
+  * `mp_store_outside_reported` / `mp_bad_order_reported` — a task index that is
+    no event index (`n_events ≤ k`) is reported, for every number (≥ 1) of
+    outcome rows;
+  * under "lemmas (not property theorems)": `mp_initial_content_irrelevant`
+    (a corollary by rewriting twice with `activation_mp_eq_single`) and
+    `mp_dropped_tail_differs` (a kernel-checked EXAMPLE of a schedule that drops
+    the last `len % n_jobs` events — seeded change C12_b —, not a theorem about
+    all such schedules).
+
+  EXACT ARITHMETIC / float64 (finding F15).  The multi-process theorems are
+  about one scalar type `S` with one `+`: both paths add the same numbers in
+  the same order.  The code as shipped cast the weights to float64 ONLY in the
+  multi-process path (`np.float64(weights)`, activation.py:172) while the
+  single-process path summed in the weights' own dtype: for non-float64
+  weights (float32 `[[.1,.2,.3],[1e8,1,-1e8]]`: `n_jobs=1` gave
+  `[[0.6000000238],[0.0]]`, `n_jobs=2` `[[0.6000000164],[1.0]]`) the two REAL
+  paths differed in rounding.  `activation_mp_eq_single` says nothing about
+  that: it is the statement for exact arithmetic, i.e. for the code on float64
+  weights (where the cast is the identity).  The discrepancy is recorded as
+  finding F15 and repaired in /repo (`sum(axis=1, dtype=np.float64)` in the
+  single-process path, activation.py:167).
 -/
 import PyndlProofs.Activation
 import PyndlProofs.ActivationMP
@@ -292,7 +311,12 @@ example :
     of the `n_jobs >= 2` path (`activationMatrixMP`: index tuples in the parent,
     one column-write task per event on the flat buffer, reshape) returns exactly
     the matrix — or raises exactly the error — of the single-process model
-    `activationMatrix`.  No hypothesis on the labels. -/
+    `activationMatrix`.  No hypothesis on the labels.
+    SCOPE: one scalar type `S`, one addition — exact arithmetic.  The shipped
+    code cast the weights to float64 only in the multi-process path
+    (activation.py:172), so on non-float64 weights its two paths rounded
+    differently (finding F15, file header; repaired in /repo); this theorem is
+    about the code on float64 weights / after that repair. -/
 theorem activation_mp_eq_single {S : Type} [Add S] [Zero S] (p : DupPolicy) (ig : Bool) (w : LW S)
     (evs : List (List String)) (order : List Nat) (init : Array S)
     (hperm : order.Perm (List.range evs.length))
@@ -333,18 +357,6 @@ theorem mp_cells_written_once {S : Type} [Add S] [Zero S] (w : LW S) (tasks : Li
     rw [mpByOutcome_transpose _ _ _ i k hi hk, hM]
     simp [List.getD_eq_getElem?_getD, List.getElem?_map, List.getElem?_eq_getElem hk]
 
-/-- **the initial content of the shared buffer is irrelevant** (the code gets
-    zeros from `RawArray`; any other content of the right size gives the same
-    result), and so is the completion order: two runs agree -/
-theorem mp_initial_content_irrelevant {S : Type} [Add S] [Zero S] (p : DupPolicy) (ig : Bool) (w : LW S)
-    (evs : List (List String)) (order order' : List Nat) (init init' : Array S)
-    (hperm : order.Perm (List.range evs.length)) (hperm' : order'.Perm (List.range evs.length))
-    (hsize : init.size = w.outcomes.length * evs.length)
-    (hsize' : init'.size = w.outcomes.length * evs.length) :
-    activationMatrixMP p ig w evs order init = activationMatrixMP p ig w evs order' init' := by
-  rw [activation_mp_eq_single p ig w evs order init hperm hsize,
-    activation_mp_eq_single p ig w evs order' init' hperm' hsize']
-
 /-- **the multi-process path returns the cue-wise sums** (`activation_matrix_spec`
     for `n_jobs >= 2`): if the multi-process model returns `M` for some
     permutation `order` and some initial buffer, every event was accepted and
@@ -363,14 +375,40 @@ theorem activation_mp_spec (p : DupPolicy) (ig : Bool) (w : LW R) (hno : w.outco
   activation_matrix_spec p ig w hno hnc evs M
     (by rw [← activation_mp_eq_single p ig w evs order init hperm hsize]; exact h)
 
-/-- a store outside the buffer is not hidden by the model: a task whose event
-    index is beyond the buffer makes the run fail (so `some` in
-    `mp_cells_written_once` says something) -/
+/-- **a store outside the buffer is not hidden by the model** (so `some` in
+    `mp_cells_written_once` says something): a task whose index `k` is no event
+    index (`n_events ≤ k`) makes the task fail, for EVERY number `≥ 1` of outcome
+    rows.  (Until the second review the hypothesis was `n_outcomes * n_events ≤ k`,
+    which missed e.g. `k = 3` on the 2×3 buffer; `n_events ≤ k` is the true
+    bound: for `k < n_events` the task succeeds, `mpTask_spec`.) -/
 theorem mp_store_outside_reported {S : Type} [Add S] [Zero S] (w : LW S) (nEv : Nat) (b : MPBuf S)
     (k : Nat) (idx : List Nat) (hrow : 0 < w.outcomes.length)
-    (hsize : b.cells.size = w.outcomes.length * nEv) (hk : w.outcomes.length * nEv ≤ k) :
+    (hsize : b.cells.size = w.outcomes.length * nEv) (hk : nEv ≤ k) :
     mpTask w nEv b k idx = none :=
-  mpTask_out_of_range w nEv b k idx hrow hsize hk
+  mpTask_event_index_out_of_range w nEv b k idx hrow hsize hk
+
+/-- … and so does the whole multi-process model: when the parent accepts the
+    events, the matrix has at least one outcome row and `order` contains an entry
+    that is no event index, the answer is `.error .other` (what the driver op
+    `activation_mp` reports as `Raised:Other`) — whatever the other entries of
+    `order` are.  With no outcome row no store happens at all and the run
+    succeeds. -/
+theorem mp_bad_order_reported (p : DupPolicy) (ig : Bool) (w : LW R)
+    (evs : List (List String)) (order : List Nat) (init : Array R)
+    (hacc : ∀ cues ∈ evs, actEventErr p ig w.cues cues = none)
+    (hrow : 0 < w.outcomes.length) (hsize : init.size = w.outcomes.length * evs.length)
+    (hbad : ∃ k ∈ order, evs.length ≤ k) :
+    activationMatrixMP p ig w evs order init = .error .other := by
+  unfold activationMatrixMP
+  have hok := activationMatrix_ok_of p ig w evs hacc
+  rw [activationMatrix_eq_indexLists] at hok
+  cases ht : actIndexLists p ig w.cues evs with
+  | error e => rw [ht] at hok; cases hok
+  | ok tasks =>
+    have hl := actIndexLists_length p ig w.cues evs tasks ht
+    simp only
+    rw [mpRun_none_of_bad_index w tasks order ⟨init, []⟩ hrow (by rw [hl]; exact hsize)
+      (by rw [hl]; exact hbad)]
 
 /-! #### non-vacuity of the multi-process theorems (ℤ) -/
 
@@ -393,7 +431,47 @@ example :
     activationMatrixMP .error true exW [["a"], ["a", "c", "c"]] [1, 0] (mpZeros 2 2) = .error .value := by
   refine ⟨by decide +kernel, by decide +kernel, by decide +kernel, by decide +kernel⟩
 
-/-- `mp_cells_written_once` instantiated: the trace of the run in order 2, 0, 1
+/-- `mp_cells_written_once` APPLIED (both hypotheses instantiated: `[2, 0, 1]` is
+    a permutation of `range 3`, the garbage buffer has 2·3 cells): the run
+    succeeds, its trace is a permutation of all six cells, cell 4 is written
+    exactly once and cell 6 never, and entry (outcome 1, event 0) of what the
+    code returns is the single-process activation 70 -/
+example :
+    ∃ b, mpRun exW [[0, 2, 2], [1], []] [2, 0, 1] ⟨#[9, 9, 9, 9, 9, 9], []⟩ = some b ∧
+      b.written.Perm (List.range 6) ∧ b.written.count 4 = 1 ∧ b.written.count 6 = 0 ∧
+      ((mpByOutcome 2 3 b.cells).getD 1 []).getD 0 0 = 70 := by
+  obtain ⟨b, h, _, hw, hc, _, hM⟩ :=
+    mp_cells_written_once exW [[0, 2, 2], [1], []] [2, 0, 1] #[9, 9, 9, 9, 9, 9] (by decide) (by decide)
+  refine ⟨b, h, hw, ?_, ?_, ?_⟩
+  · have := hc 4; simpa [exW] using this
+  · have := hc 6; simpa [exW] using this
+  · have := hM 1 0 (by decide) (by decide)
+    simp only [exW, List.length_cons, List.length_nil] at this ⊢
+    rw [this]
+    decide +kernel
+
+/-- `activation_mp_spec` APPLIED with every hypothesis instantiated (the matrix
+    the multi-process model returns for order 2, 0, 1 on a garbage buffer):
+    entry (event 0, outcome 1) is the sum over the contributing cues `a, c, c` -/
+example :
+    (([[7, 70], [2, 20], [0, 0]] : List (List ℤ)).getD 0 []).getD 1 0
+      = sumOver (exW.get "y") (contribCues .keep exW.cues ["a", "c", "c"]) :=
+  ((activation_mp_spec (R := ℤ) .keep true exW (by decide) (by decide)
+    [["a", "c", "c"], ["b", "q"], []] [2, 0, 1] #[9, 9, 9, 9, 9, 9] (by decide) (by decide)
+    [[7, 70], [2, 20], [0, 0]] (by decide +kernel)).2 0 (by decide)).2.2 1 (by decide)
+
+/-- `mp_store_outside_reported` APPLIED at the true bound (`k = 3 = n_events`,
+    below `n_outcomes * n_events = 6`: the case the old hypothesis missed), and
+    `mp_bad_order_reported` APPLIED: order `[2, 0, 3, 1]` -/
+example : mpTask exW 3 ⟨#[9, 9, 9, 9, 9, 9], []⟩ 3 [0] = none :=
+  mp_store_outside_reported exW 3 ⟨#[9, 9, 9, 9, 9, 9], []⟩ 3 [0] (by decide) (by decide) (by decide)
+
+example : activationMatrixMP .keep true exW [["a", "c", "c"], ["b", "q"], []] [2, 0, 3, 1] #[9, 9, 9, 9, 9, 9]
+    = .error .other :=
+  mp_bad_order_reported .keep true exW _ [2, 0, 3, 1] #[9, 9, 9, 9, 9, 9] (by decide) (by decide) (by decide)
+    ⟨3, by decide, by decide⟩
+
+/-- the run itself, kernel-evaluated: the trace of the run in order 2, 0, 1
     on the 2×3 buffer, and the buffer as the code returns it (outcomes × events) -/
 example :
     ∃ b, mpRun exW [[0, 2, 2], [1], []] [2, 0, 1] ⟨#[9, 9, 9, 9, 9, 9], []⟩ = some b ∧
@@ -404,7 +482,23 @@ example :
 example : ([2, 0, 1] : List Nat).Perm (List.range 3) ∧ (#[9, 9, 9, 9, 9, 9] : Array ℤ).size = 2 * 3 := by
   decide
 
-/-- **negative example (seeded change C12_b)**: a schedule that hands every
+/-! ### lemmas (not property theorems) -/
+
+/-- (definitional: `activation_mp_eq_single` rewritten on both sides) the initial
+    content of the shared buffer is irrelevant (the code gets
+    zeros from `RawArray`; any other content of the right size gives the same
+    result), and so is the completion order: two runs agree -/
+theorem mp_initial_content_irrelevant {S : Type} [Add S] [Zero S] (p : DupPolicy) (ig : Bool) (w : LW S)
+    (evs : List (List String)) (order order' : List Nat) (init init' : Array S)
+    (hperm : order.Perm (List.range evs.length)) (hperm' : order'.Perm (List.range evs.length))
+    (hsize : init.size = w.outcomes.length * evs.length)
+    (hsize' : init'.size = w.outcomes.length * evs.length) :
+    activationMatrixMP p ig w evs order init = activationMatrixMP p ig w evs order' init' := by
+  rw [activation_mp_eq_single p ig w evs order init hperm hsize,
+    activation_mp_eq_single p ig w evs order' init' hperm' hsize']
+
+/-- (a kernel-checked EXAMPLE on two closed inputs, not a property theorem)
+    negative example (seeded change C12_b): a schedule that hands every
     worker `len / n_jobs` events and drops the remaining `len % n_jobs` ones
     (for `len < n_jobs`: schedules nothing — `starmap(…, chunksize=0)`) is NOT a
     permutation of the event indices and does NOT produce the matrix: with one
@@ -421,7 +515,6 @@ theorem mp_dropped_tail_differs :
     activationMatrix .keep true exW [["a", "c", "c"], [], ["b", "q"]] = .ok [[7, 70], [0, 0], [2, 20]] := by
   refine ⟨by decide, by decide +kernel, by decide +kernel, by decide, by decide +kernel, by decide +kernel⟩
 
-/-! ### lemmas (not property theorems) -/
 
 /-- (definitional) which cues contribute under each duplicate policy -/
 theorem act_cues_policy (cues : List String) :
